@@ -245,7 +245,16 @@ def squareOf (v : Value) : Outcome Value :=
     | some r => .ok (.int r)
     | none => .error .undefinedOperation
   | .real x => .ok (.real (F64.mul x x))
-  | .interval _ => .oracleMissing "stddev of intervals"
+  | .interval ns =>
+    -- `num_microseconds()` squared as microseconds when it fits an i64, else `num_milliseconds()` squared through
+    -- `try_milliseconds`; an overflow is the error NUMERIC_OVERFLOW. (The running sums of squares are INTERVALs, for
+    -- which `update` publishes no value: `stddevValue`.)
+    let us := Int.tdiv ns 1000
+    if inI64 us then
+      (if inI64 (us * us) then .ok (.interval (us * us * 1000)) else .error .undefinedOperation)
+    else
+      let ms := Int.tdiv ns 1000000
+      if inI64 (ms * ms) && inIv (ms * ms * 1000000) then .ok (.interval (ms * ms * 1000000)) else .error .undefinedOperation
   | _ => .ok .null
 
 def stddevCalc (count : Int) (isVariance : Bool) (s q : Nat) : Nat :=
